@@ -199,7 +199,13 @@ func jlRandCols(r *rng, depth int) []jlCol {
 			cols = append(cols, jlCol{name: names[i], isSub: true, sub: jlRandCols(r, depth+1)})
 			continue
 		}
-		cols = append(cols, jlCol{name: names[i], in: jlDescriptor(r), out: jlDescriptor(r)})
+		out := jlDescriptor(r)
+		if r.chance(1, 10) {
+			// an OUTPUT descriptor holding colons: in the inline form everything after the FIRST colon is the output
+			// descriptor, as it stands in the file form (none of these names a format: the column is Auto)
+			out = pick(r, []string{"numeric:", ":numeric", "string:numeric", "numeric:string(int)", "::", "hidden:", "string:"})
+		}
+		cols = append(cols, jlCol{name: names[i], in: jlDescriptor(r), out: out})
 	}
 	return cols
 }
